@@ -18,64 +18,49 @@ Theorem c09_spec_trace_holds : forall ops, holds (a_trace a_init ops) = true.
 Proof. exact holds_a_l. Qed.
 Print Assumptions c09_spec_trace_holds.
 
-(* HEADLINE (in-memory book), partial: for every history in which every clock advance is
-   followed by a GC run before anything else, no UpdateAddrs TTL is negative, signed records list
-   suffix-free addresses and the clock stays below ConnectedAddrTTL, the model of pstoremem gives
-   exactly the abstract book's answers (GC's heap count aside) ... *)
-Theorem c09_mem_refines_spec_partial : forall ops, calm 0 ops = true ->
-  map norm_pair (m_trace m_init ops) = map norm_pair (a_trace a_init ops).
-Proof. exact mem_trace_eq_l. Qed.
-Print Assumptions c09_mem_refines_spec_partial.
-
-(* ... hence the monitor run on the implementation accepts every such trace of the model *)
-Theorem c09_mem_trace_holds_partial : forall ops, calm 0 ops = true -> holds (m_trace m_init ops) = true.
+(* HEADLINE (in-memory book): for EVERY history whose clock moves forward and stays below
+   ConnectedAddrTTL (292 years) — the only hypothesis: [clock_ok], decidable on the history —
+   the monitor that is run on the implementation accepts the trace of the model of pstoremem.
+   No GC schedule, TTL sign or record-address form is assumed any more (fix commits 39ac082, 6eab440). *)
+Theorem c09_mem_trace_holds : forall ops, clock_ok 0 ops = true -> holds (m_trace m_init ops) = true.
 Proof. exact mem_holds_l. Qed.
-Print Assumptions c09_mem_trace_holds_partial.
+Print Assumptions c09_mem_trace_holds.
 
-(* memory bounded / heap discipline after such a history: everything stored is live, an entry is
-   in the expiry heap iff its TTL class is below connected (DESIGN 9 item 1), every stored signed
-   record belongs to a peer with a stored address *)
-Theorem c09_mem_bounded_after_gc_partial : forall ops, calm 0 ops = true ->
+(* refinement, operation by operation: every answer of the model is the abstract book's answer
+   (GC's heap count aside); PeersWithAddrs lists at least the abstract book's peers (a peer whose
+   addresses expired since the last GC may still be listed: that is what the property allows) *)
+Theorem c09_mem_refines_spec : forall ops, clock_ok 0 ops = true ->
+  trace_refines (a_trace a_init ops) (m_trace m_init ops).
+Proof. exact mem_refines_l. Qed.
+Print Assumptions c09_mem_refines_spec.
+
+(* state: the abstraction of the model's state is the abstract book's state; an entry is in the expiry
+   heap iff its TTL class is below connected (DESIGN 9 item 1); every signed record belongs to a peer
+   with a stored address; after a GC run everything stored is live (memory bounded) *)
+Theorem c09_mem_bounded_after_gc : forall ops, clock_ok 0 ops = true ->
   let m := m_run m_init ops in
-  (forall x, In x (m_ents m) -> live (m_now m) (me x) = true) /\
+  m_abs m = a_run a_init ops /\
   (forall x, In x (m_ents m) -> mheap x = negb (conn (ettl (me x)))) /\
-  (forall r, In r (m_recs m) -> m_has_peer (rp r) (m_ents m) = true).
+  (forall r, In r (m_recs m) -> m_has_peer (rp r) (m_ents m) = true) /\
+  (forall x, In x (m_ents (m_gc m)) -> live (m_now (m_gc m)) (me x) = true).
 Proof. exact mem_state_l. Qed.
-Print Assumptions c09_mem_bounded_after_gc_partial.
+Print Assumptions c09_mem_bounded_after_gc.
 
-(* the full statement (no hypothesis) is FALSE of the faithful model of pstoremem *)
-Theorem c09_mem_refines_spec_refuted :
-  holds (m_trace m_init wit_stale_seq) = false /\ holds (m_trace m_init wit_stale_class) = false /\
-  holds (m_trace m_init wit_resurrect) = false /\ holds (m_trace m_init wit_lapsed_record) = false /\
-  holds (m_trace m_init wit_suffix) = false.
-Proof. exact mem_refuted_l. Qed.
-Print Assumptions c09_mem_refines_spec_refuted.
+(* the 13 former findings: every witness history is accepted now by the monitor on the model of
+   pstoremem and on the model of pstoreds in all four configurations (cache off/on x full-purge/lookahead) *)
+Theorem c09_former_findings_absent :
+  forallb (fun w => holds (m_trace m_init w)) all_wits = true /\
+  forallb (fun c => forallb (fun w => holds (d_trace c w)) all_wits) ds_cfgs = true.
+Proof. exact former_findings_absent_l. Qed.
+Print Assumptions c09_former_findings_absent.
 
-(* ... and of the faithful model of pstoreds (cache off / on, full-purge / lookahead GC) *)
-Theorem c09_ds_refines_spec_refuted :
-  holds (d_trace (d_init false 0) wit_lapsed_record) = false /\
-  holds (d_trace (d_init true 0) wit_lapsed_record) = false /\
-  holds (d_trace (d_init true 0) wit_ds_set0) = false /\
-  holds (d_trace (d_init false 0) wit_ds_set0) = true /\
-  holds (d_trace (d_init true 0) wit_suffix) = false /\
-  holds (d_trace (d_init true (s_ 30)) wit_ds_gc) = false /\
-  holds (d_trace (d_init true 0) wit_ds_gc) = true.
-Proof. exact ds_refuted_l. Qed.
-Print Assumptions c09_ds_refines_spec_refuted.
-
-(* "same answers in both books" and "same answers with any cache size" are false of the models *)
-Theorem c09_mem_ds_equivalent_refuted :
-  map snd (m_trace m_init wit_stale_seq) <> map snd (d_trace (d_init true 0) wit_stale_seq) /\
-  map snd (d_trace (d_init false 0) wit_ds_set0) <> map snd (d_trace (d_init true 0) wit_ds_set0).
-Proof. exact mem_ds_differ_l. Qed.
-Print Assumptions c09_mem_ds_equivalent_refuted.
-
-(* "same answers after close and reopen" is false of the model of pstoreds with a cache *)
-Theorem c09_ds_reopen_equiv_refuted :
-  last (map snd (d_trace (d_init true 0) (wit_reopen false))) ONone <>
-  last (map snd (d_trace (d_init true 0) (wit_reopen true))) ONone.
-Proof. exact ds_reopen_differs_l. Qed.
-Print Assumptions c09_ds_reopen_equiv_refuted.
+(* ... and on them every configuration of the pstoreds model answers exactly as the abstract book *)
+Theorem c09_ds_agrees_on_witnesses :
+  forallb (fun w => forallb (fun c =>
+     list_eqb (fun x y => obs_conform (norm_obs x) (norm_obs y))
+              (map snd (d_trace c w)) (map snd (a_trace a_init w))) ds_cfgs) all_wits = true.
+Proof. exact witnesses_agree_l. Qed.
+Print Assumptions c09_ds_agrees_on_witnesses.
 
 (* the two repaired defects (DESIGN 9 items 1 and 2) are absent from both models *)
 Theorem c09_repaired_defects_absent :
@@ -115,10 +100,11 @@ Proof. exact record_seq_monotone_l. Qed.
 Print Assumptions c09_record_seq_monotone.
 
 (* ---- non-vacuity ------------------------------------------------------------------ *)
-Example c09_calm_history_exists : calm 0 calm_example = true /\
-  map snd (m_trace m_init calm_example) =
-  [OVal 1; ONone; ONone; ONone; OSizes 2 1 2; OList [1]; OList []; ONone; OVal 0; OVal 1; ONone; OSizes 0 0 0; OVal 0; ONone].
-Proof. exact calm_example_l. Qed.
+Example c09_hypothesis_satisfiable : clock_ok 0 full_example = true /\
+  map snd (m_trace m_init full_example) =
+  [OVal 1; ONone; ONone; ONone; OList [1; 2]; OList []; ONone; OList []; OSizes 2 1 2; OList [1];
+   ONone; OVal 0; ONone; OVal 0; OVal 1; OVal 3; ONone; OVal 0; ONone; ONone].
+Proof. exact full_example_l. Qed.
 
 Example c09_monitor_rejects_bad_traces :
   holds [(OAdd 1 (s_ 120) [(1, 0)], ONone); (OAdvance (s_ 120), ONone); (OAddrs 1, OList [1])] = false /\
